@@ -67,11 +67,33 @@ def hostile_values(width_bytes):
     seqs = st.one_of(
         st.integers(0, 2 * n + 1).flatmap(lambda m: st.binary(min_size=m, max_size=m)),
         st.integers(0, 2 * n + 1).flatmap(lambda m: st.text(alphabet="aZ0 é", min_size=m, max_size=m)),
+        # texts whose character count and UTF-8 byte count straddle the width
+        st.integers(max(0, n - 3), n).flatmap(lambda m: st.text(alphabet="aé€ü", min_size=m, max_size=m)),
         st.lists(st.integers(-2, 300), max_size=min(2 * n + 1, 270)),
-        st.sampled_from([[0] * n, [255] * n, [0] * (n + 1), [256] * n, [-1] * n]))
+        st.sampled_from([[0] * n, [255] * n, [0] * (n + 1), [256] * n, [-1] * n,
+                         # right length, wrong element type
+                         [0.5] * n, [None] + [0] * (n - 1), ["a"] * n, [0] * (n - 1) + [b"\x01"], [[0]] * n,
+                         [True] * n, [float("nan")] + [1] * (n - 1)]))
     other = st.sampled_from([None, True, False, (), (1, 2), {}, {"a": 1}, [None], 1j, b"", "", "x",
                              [1.5], bytearray(b"\x01")])
     return st.one_of(ints, floats, seqs, other)
+
+
+def sequence_fields(defn):
+    """Names of attributes of type X / C / A anywhere in the definition."""
+    out = set()
+
+    def walk(d):
+        for k, v in d.items():
+            if G.is_group_def(v):
+                walk(v[1])
+            elif not G.is_bitfield_def(v):
+                t = v[0] if isinstance(v, list) else v
+                if t != "CH" and t[0] in "XCA":
+                    out.add(k)
+
+    walk(defn)
+    return out
 
 
 def value_kind(v, size=None):
@@ -431,3 +453,24 @@ def run_shard(spec, ctx, acc):
         strat = st.tuples(inst, st.sampled_from([1, 1, 0])).flatmap(with_hostile)
         core.hyp_search(acc, strat, check, seed=core.derive(ctx["seed"], PROP, t.label),
                         max_examples=n, known=known, rounds=4)
+        # definitions with byte-string / character / array attributes get an extra
+        # search whose hostile attribute is always one of those
+        seqnames = sequence_fields(t.defn)
+        if seqnames:
+            def with_seq(nodes_bf, base=base, seqnames=seqnames):
+                nodes, bf = nodes_bf
+                names = [nm for nm, _ in G.expect(nodes, bf) if C.base_name(nm) in seqnames]
+                if not names:
+                    return st.just(dict(base, bf=bf, nodes=nodes, hostile=[]))
+
+                def one(name):
+                    fld = find_field(nodes, name, bf)
+                    w = codec.tsize(fld[1][2]) if fld and fld[0] != "flag" else 4
+                    return hostile_values(min(w, 260)).filter(
+                        lambda v: isinstance(v, (str, bytes, bytearray, list))).map(lambda v: [name, v])
+
+                return st.sampled_from(names).flatmap(one).map(lambda h: dict(base, bf=bf, nodes=nodes, hostile=[h]))
+
+            core.hyp_search(acc, st.tuples(inst, st.just(1)).flatmap(with_seq), check,
+                            seed=core.derive(ctx["seed"], PROP, "seq", t.label),
+                            max_examples=n, known=known, rounds=4)
